@@ -112,6 +112,7 @@ R01.7 the destination import path comes from modfile.ModulePath of the nearest g
 	goR016(c, r)
 	goR017(c, r)
 	goR017Search(c, r)
+	rulePkgPathCleaned(c, r, "R01.7")
 	// qualifier bookkeeping: distinct imports never share a qualifier (shared with C15)
 	ruleAddImport(c, r, "R01.5")
 	accessorTableGuard(c, "R01.9")
@@ -122,6 +123,13 @@ R01.7 the destination import path comes from modfile.ModulePath of the nearest g
 	subRules(c, "R01.5", "registry-per-file", "the import block of a file is the registry's content: ", func(sub *Ctx) {
 		sub.Rule("R06.6", 0, "")
 		ruleFreshGenerator(sub, loadRepo(sub, packages.LoadSyntax, "", "./internal/cmd", "./internal"), "R06.6")
+	})
+	// a replaced parameter imports the replacement's package only (C13's R13.3): under gofmt/noop an import of
+	// the package it was replaced away from is an unused import (round 7: populateImports hoisted above the
+	// replacement branch of AddVar)
+	subRules(c, "R01.10", "add-var", "every import a file declares is used (no import repair under gofmt/noop): ", func(sub *Ctx) {
+		sub.Rule("R13.3", 0, "")
+		ruleAddVar(sub, loadRepo(sub, packages.LoadSyntax, "", "./internal", "./template", "./config"))
 	})
 	c.Rule("R01.10", 1, "")
 	subRules(c, "R01.10", "identifier-functions", "the built-in templates build field and constructor names with these functions: ", func(sub *Ctx) {
@@ -1478,4 +1486,73 @@ func ruleAbsolutiseWhenRelative(c *Ctx, r *Repo, rule string) {
 		})
 	}
 	c.Check(n >= 1, rule, "absolutise-when-relative|sites", "internal/template_generator.go", "the relative-to-absolute step of the output directory found", "no 'if !dir.IsAbsolute() { dir = cwd.JoinPath(dir) }' step found in the generator package (anchor: NewTemplateGenerator)")
+}
+
+// rulePkgPathCleaned (round 7): the destination import path findPkgPath returns is a cleaned path. For an output
+// directory that is the module root the relative part is ".", and "<module>/." is not the path the in-package
+// decision and the import registry know the package under: in-package mocks of a root package import their own
+// package. Every successful return passes through pathlib's Clean, path.Clean or filepath.Clean (or returns a
+// local that was assigned such a value).
+func rulePkgPathCleaned(c *Ctx, r *Repo, rule string) {
+	ip := r.Pkg("internal")
+	info := ip.TypesInfo
+	fd := FuncDecl(ip, "findPkgPath")
+	if fd == nil {
+		c.Fail(rule, "findPkgPath|cleaned|missing", "internal/template_generator.go", "findPkgPath not found")
+		return
+	}
+	hasClean := func(e ast.Expr) bool {
+		found := false
+		ast.Inspect(e, func(m ast.Node) bool {
+			if call, ok := m.(*ast.CallExpr); ok {
+				switch n := calleeName(info, call); {
+				case strings.HasSuffix(n, "pathlib.Path).Clean"), n == "path.Clean", n == "path/filepath.Clean":
+					found = true
+				}
+			}
+			return true
+		})
+		return found
+	}
+	n := 0
+	for _, g := range familyOf(ip, fd) {
+		if g != fd {
+			continue
+		}
+		cleanedLocal := map[types.Object]bool{}
+		ast.Inspect(g.Body, func(x ast.Node) bool {
+			if as, ok := x.(*ast.AssignStmt); ok && len(as.Lhs) == len(as.Rhs) {
+				for i, l := range as.Lhs {
+					if id, ok := l.(*ast.Ident); ok && hasClean(as.Rhs[i]) {
+						if o := info.Defs[id]; o != nil {
+							cleanedLocal[o] = true
+						} else if o := info.Uses[id]; o != nil {
+							cleanedLocal[o] = true
+						}
+					}
+				}
+			}
+			return true
+		})
+		ast.Inspect(g.Body, func(x ast.Node) bool {
+			if _, ok := x.(*ast.FuncLit); ok {
+				return false
+			}
+			rs, ok := x.(*ast.ReturnStmt)
+			if !ok || len(rs.Results) != 2 || !isNilIdent(info, rs.Results[1]) {
+				return true
+			}
+			n++
+			ok2 := hasClean(rs.Results[0])
+			ast.Inspect(rs.Results[0], func(m ast.Node) bool {
+				if id, ok := m.(*ast.Ident); ok && cleanedLocal[info.Uses[id]] {
+					ok2 = true
+				}
+				return true
+			})
+			c.Check(ok2, rule, "findPkgPath|cleaned", r.Pos(rs.Pos()), "the package path returned is cleaned", "findPkgPath returns "+types.ExprString(rs.Results[0])+" without cleaning it: for an output directory at the module root the result ends in \"/.\", the in-package decision no longer recognises the package and an in-package mock imports its own package (import cycle)")
+			return true
+		})
+	}
+	c.Check(n > 0, rule, "findPkgPath|cleaned|returns", r.Pos(fd.Pos()), "successful returns of findPkgPath found", "no successful return found in findPkgPath")
 }
